@@ -98,6 +98,18 @@ TRIAGE = {
     "2e790904db": "equivalent: assigning an equal value",
     "8c94c9191c": "equivalent with the `unicode-id-start` tables in use: U+200C / U+200D then fall through to `is_id_continue_unicode`, which accepts them (the harness probes the crate's predicate for every non-ASCII character of every case, so a difference would have been a `pool-mismatch`)",
     "43d242189c": "equivalent (as ffce853adc: the other column-scanning loop of `RevTokenIter::next`)",
+    "b6c1e570e7": "equivalent: `last` starts at 1 instead of 0 - one more (false) bit of the same base64 digit is read",
+    "b4ebda183d": "**blind spot, closed**: `set_source` index through `u8`: no case had more than 5 sources; `smap.seq` now also runs on maps with 256 / 257 / 300 sources and touches ids 255 / 256 / 257; reported by C13 now",
+    "2a221608ba": "**blind spot, closed** (as b4ebda183d: `get_source_contents` index through `u8`); reported by C13 now",
+    "438f10fd8e": "**blind spot, closed**: `get_line_slice` column through `u8`: no line had 256 UTF-16 units; C15 now slices a 300-unit line around columns 255 / 256 / 257 (and a 66 000-unit line around 65 535 / 65 536 in the thorough command) and asks for lines 255.. of a 300-line text; reported by C15 now",
+    "7576aadbc8": "equivalent: the truncated value is only compared with the cached line number, and the walk goes to smaller line numbers, so a wrong `equal` would need a cached line smaller than the current one",
+    "ff0e5c2ac8": "not covered: needs 65 536 distinct names in one builder; the model's association lists make that case too slow for a check (the tie theorem `tie_add_name` does break, which is recorded as a lost tie)",
+    "155cd40d54": "file (unbundle) RAM bundles: outside C20",
+    "d7e761bcd0": "equivalent: a capacity hint",
+    "8c3ce71511": "outside the properties: the numeric payload of the error value (the checks compare error kinds)",
+    "8bb0e1767a": "outside the properties: the numeric payload of the error value",
+    "7c56bfc706": "**blind spot, closed** (as b4ebda183d: `set_source_contents` index through `u8`; evaluated before the many-sources cases existed)",
+    "c4bf74b8d9": "**blind spot, closed** (as 438f10fd8e; spans 255 / 256 / 257 and the full line length are now requested too)",
     "6812f09c9a": "`split_path` is used by `find_common_prefix` (the `~` option of `rewrite`) only, not by `make_relative_path`: outside C19; C09 holds for explicit prefixes and for whatever `~` computes (the stripped prefix is part of its statement)",
 }
 
